@@ -1821,9 +1821,11 @@ class _multivalued(Deb822):
                         value = raw_value
                     else:
                         value = (length - len(raw_value)) * " " + raw_value
-                    if "\n" in value:
-                        raise ValueError("'\\n' not allowed in component of "
-                                         "multivalued field %s" % key)
+                    if "\n" in value or "\r" in value:
+                        # a carriage return ends a line as well when the
+                        # text is read back from a string
+                        raise ValueError("'\\n' and '\\r' not allowed in component "
+                                         "of multivalued field %s" % key)
                     fd.write(" %s" % value)
                 fd.write("\n")
             return fd.getvalue().rstrip("\n")
